@@ -72,7 +72,12 @@ mod probes {
                 inner.extend(text.bytes().map(|b| b as u32));
             } else {
                 for (is_special, seg) in segments(text, &toks) {
-                    if is_special { inner.push(t.token_to_id(seg).ok_or(format!("{what}: token_to_id({seg:?}) is None"))?); }
+                    if is_special {
+                        let id = t.token_to_id(seg).ok_or(format!("{what}: token_to_id({seg:?}) is None"))?;
+                        // "the UTF-8 bytes of the text as ids 0..255": a special id inside that range would be a byte
+                        if id < 256 { return Err(format!("{what}: special token {seg:?} has id {id}, which is a byte id")); }
+                        inner.push(id);
+                    }
                     else { inner.extend(seg.bytes().map(|b| b as u32)); }
                 }
             }
@@ -145,7 +150,7 @@ mod probes {
 
         /// BOUND: every text of at most 3 pieces from the alphabet below, all byte-tokenizer configurations (2^6) and
         /// character-tokenizer configurations (2^3)
-        pub const PIECES: [&str; 13] = ["a", "Z", " ", "\u{e4}", "e\u{301}", "\r\n", "\u{1f469}\u{200d}\u{1f469}", "<bos>", "<|sep|>", "[SEP]", "<", "|", "sep"];
+        pub const PIECES: [&str; 16] = ["a", "Z", " ", "\u{e4}", "e\u{301}", "\r\n", "\u{1f469}\u{200d}\u{1f469}", "<bos>", "<|sep|>", "[SEP]", "<", "|", "sep", "<unk>", "\0", "\u{10ffff}"];
         pub fn search_all() -> (Vec<(Value, String, String)>, usize) {
             let mut texts = vec![String::new()];
             let mut frontier = vec![String::new()];
@@ -1025,6 +1030,13 @@ mod probes {
             let what = format!("corrupt_whitespace(iw={iw}, dw={dw}, graphemes={g}, seed={seed}) on {text:?} gave {out:?}");
             if target != text { return Err(format!("{what}: target changed to {target:?}")); }
             if run()?.0 != out { return Err(format!("{what}: not deterministic in (text, seed)")); }
+            // "a deterministic function of (text, seed)": nothing else in the item's info may matter
+            for file_idx in [1usize, 3] {
+                let mut marks = HashMap::new();
+                marks.insert("k".to_string(), "v".to_string());
+                let (d2, _) = f(TrainData::new(text.to_string(), None), TextDataInfo { seed, file_idx, marks }).map_err(|e| e.to_string())?;
+                if input_of(&d2) != out { return Err(format!("{what}, but {:?} for the same text and seed with file_idx={file_idx}: not a function of (text, seed)", input_of(&d2))); }
+            }
             if nonws(&out, g) != nonws(text, g) { return Err(format!("{what}: non-whitespace character sequence changed")); }
             if crate::text::clean(&out, g) != out { return Err(format!("{what}: output is not whitespace-clean")); }
             match operations(&out, text, g) {
@@ -1369,7 +1381,8 @@ mod probes {
             check(&merges, input["max_vocab_size"].as_u64().map(|x| x as usize), input["fix"].as_bool().unwrap_or(false), input["text"].as_str().unwrap_or(""))
         }
         /// BOUND: 7 merge tables (incl. multi-level, overlapping, whitespace-prefixed and multi-byte merges) x truncating
-        /// max_vocab_size x every text of at most 5 pieces from {a, b, c, space, U+00E4, newline}
+        /// max_vocab_size x every text of at most 5 pieces from {a, b, c, space, U+00E4, newline}, at most 3 pieces from
+        /// {<unk>, <pad>, <bos>, space, ab} and at most 3 pieces from {U+0000, U+007F, U+0080, U+07FF, U+FFFF, U+10FFFF, a, space}
         pub fn search_all() -> (Vec<(Value, String, String)>, usize) {
             let tables: Vec<Vec<(&str, u32)>> = vec![
                 vec![], vec![("ab", 0)], vec![("ab", 0), ("abc", 1)], vec![("ab", 0), ("bc", 1), ("abc", 2)],
@@ -1378,6 +1391,8 @@ mod probes {
             let mut texts = all_texts(&["a", "b", "c", " ", "\u{e4}", "\n"], 5);
             // texts that literally spell special tokens (plain text when special-token parsing is off)
             texts.extend(all_texts(&["<unk>", "<pad>", "<bos>", " ", "ab"], 3));
+            // extreme byte / code-point values (NUL, the ends of the 1-, 2-, 3- and 4-byte UTF-8 ranges)
+            texts.extend(all_texts(&["\0", "\u{7f}", "\u{80}", "\u{7ff}", "\u{ffff}", "\u{10ffff}", "a", " "], 3));
             let mut found: Vec<(Value, String, String)> = vec![];
             let mut cases = 0usize;
             for tb in &tables {
